@@ -518,11 +518,19 @@ class SSeq:
     """bytes or str with concrete length and (possibly) symbolic elements.
     Elements: python int, or z3 BitVec(8) for bytes / BitVec(32) for str."""
 
-    __slots__ = ('el', 'kind')
+    __slots__ = ('el', 'kind', '_shadow')
 
     def __init__(self, elems, kind=bytes):
         self.el = tuple(elems)
         self.kind = kind
+        self._shadow = None
+
+    def _fast(self):
+        """(concrete shadow bytes, sorted symbolic positions) for long byte sequences"""
+        if self._shadow is None:
+            syms = [i for i, e in enumerate(self.el) if not isinstance(e, int)]
+            self._shadow = (bytes(e if isinstance(e, int) else 0 for e in self.el), syms)
+        return self._shadow
 
     @property
     def __class__(self):
@@ -627,6 +635,31 @@ class SSeq:
         n = len(self.el) if end is None else min(end, len(self.el))
         if start < 0:
             start = max(0, len(self.el) + start)
+        m = len(sub)
+        if self.kind is bytes and n - start > 48 and m and all(isinstance(x, int) for x in sub):
+            # long, mostly concrete data: jump over concrete stretches with bytes.find, decide with the
+            # solver only where a symbolic element is involved (same leftmost-match semantics)
+            import bisect
+            shadow, syms = self._fast()
+            sb = bytes(sub)
+            i = start
+            while i <= n - m:
+                k = bisect.bisect_left(syms, i)
+                nxt = min(syms[k] if k < len(syms) else n, n)
+                if nxt - i >= m:
+                    p = shadow.find(sb, i, nxt)
+                    if p >= 0:
+                        return p
+                    i = nxt - m + 1
+                # positions whose window touches a symbolic element
+                while i <= n - m:
+                    k = bisect.bisect_left(syms, i)
+                    if k >= len(syms) or syms[k] >= i + m:
+                        break
+                    if _br(self.at(sub, i)):
+                        return i
+                    i += 1
+            return -1
         for i in range(start, n - len(sub) + 1):
             if _br(self.at(sub, i)):
                 return i
